@@ -13,6 +13,8 @@
 // stdin: one case per line (same files as ocaml/spin_driver.ml)
 //   run K <clients> <sched>      reg P|D|G <ops>   (P = MemoryPool: ids; D/G = Device/Graph: default slot)
 // argv: stress <seed> <threads> <iters>   free-running stress (meant for the tsan variant)
+//       idstress <seed> <threads> <iters> only the Identifiable part of it
+//       idrace <rounds> <threads>         simultaneous constructions; ids must stay unique and resolvable
 #include <atomic>
 #include <chrono>
 #include <cstdint>
@@ -352,6 +354,59 @@ bool stress_ids(unsigned seed, int nthreads, int iters) {
   return bad.load() == 0 && all.size() == n;
 }
 
+// ---- Identifiable under contention: `threads` workers construct one object each at the same moment
+// (start signal passed with relaxed atomics: no happens-before edge), `rounds` times; afterwards every
+// live object's id must be unique and must resolve to the object.  Run in the tsan variant, a data
+// race on next_id_ / objects_ is reported as well.  Also the replay of a failing schedule found by
+// the model explorer when the constructor no longer matches the reviewed one.
+struct LocalObj : primitiv::mixins::Identifiable<LocalObj> {};
+template<> struct Tr<LocalObj> { static LocalObj *make() { return new LocalObj(); } };
+
+template<class T> bool id_race(int rounds, int nthreads, const char *what) {
+  std::atomic<int> go{0};
+  std::atomic<int> done{0};
+  std::vector<std::vector<std::unique_ptr<T>>> objs(nthreads);
+  std::vector<std::thread> ths;
+  for (int i = 0; i < nthreads; ++i) {
+    ths.emplace_back([&, i]() {
+      for (int k = 1; k <= rounds; ++k) {
+        Waiter w;
+        while (go.load(RLX) < k) w.pause("idrace");
+        objs[i].emplace_back(Tr<T>::make());
+        done.fetch_add(1, RLX);
+      }
+    });
+  }
+  for (int k = 1; k <= rounds; ++k) {
+    go.store(k, RLX);
+    Waiter w;
+    while (done.load(RLX) < k * nthreads) w.pause("idrace-main");
+  }
+  for (auto &t : ths) t.join();
+  std::map<std::uint64_t, const T *> seen;
+  std::size_t dup = 0, unresolved = 0, n = 0;
+  for (auto &v : objs) for (auto &o : v) {
+    ++n;
+    if (!seen.emplace(o->id(), o.get()).second) ++dup;
+    try { if (&T::get_object(o->id()) != o.get()) ++unresolved; } catch (...) { ++unresolved; }
+  }
+  std::printf("idrace %s objects=%zu duplicate_ids=%zu unresolvable=%zu %s\n", what, n, dup, unresolved,
+              (dup || unresolved) ? "FAIL" : "ok");
+  return dup == 0 && unresolved == 0;
+}
+
+int idrace(int rounds, int nthreads) {
+  bool ok = id_race<LocalObj>(rounds, nthreads, "Identifiable<LocalObj>");
+  ok = id_race<primitiv::MemoryPool>(rounds, nthreads, "MemoryPool") && ok;
+  return ok ? 0 : 1;
+}
+
+int idstress(unsigned seed, int nthreads, int iters) {
+  const bool a = stress_ids(seed, nthreads, iters);
+  std::printf("stress identifiable-memory-pool %s\n", a ? "ok" : "FAIL");
+  return a ? 0 : 1;
+}
+
 int stress(unsigned seed, int nthreads, int iters) {
   bool ok = true;
   auto say = [&](const char *what, bool r) { std::printf("stress %s %s\n", what, r ? "ok" : "FAIL"); ok = ok && r; };
@@ -379,6 +434,10 @@ int stress(unsigned seed, int nthreads, int iters) {
 int main(int argc, char **argv) {
   if (argc >= 5 && std::string(argv[1]) == "stress")
     return stress(static_cast<unsigned>(std::atoi(argv[2])), std::atoi(argv[3]), std::atoi(argv[4]));
+  if (argc >= 5 && std::string(argv[1]) == "idstress")
+    return idstress(static_cast<unsigned>(std::atoi(argv[2])), std::atoi(argv[3]), std::atoi(argv[4]));
+  if (argc >= 4 && std::string(argv[1]) == "idrace")
+    return idrace(std::atoi(argv[2]), std::atoi(argv[3]));
   primitiv::verif::sched_hook() = hook;
   std::string line;
   while (std::getline(std::cin, line)) {
